@@ -133,7 +133,8 @@ static uint8_t loop_stop(m_ctx_t *c) {
      * Gracefully deregister it now.
      */
     c->stopping = false;
-    if (m_map_len(c->modules) == 0 && !(c->flags & M_CTX_PERSIST)) {
+    if (m_map_len(c->modules) == 0 && !(c->flags & M_CTX_PERSIST) && !c->destroying) {
+        /* (a callback of the final flush may have deregistered this context already: the thread may own a new one by now) */
         m_ctx_deregister();
     }
     m_mem_unref(c);
